@@ -36,6 +36,8 @@ func walkWith(spec selbuilder.SelectorSpec, visit traversal.VisitFn) func(ls *ip
 	}
 }
 
+var lsCfgSalt int
+
 var entityForms = []accessForm{
 	{"preload-reifier", func(ls *ipld.LinkSystem, raw ipld.Node) error {
 		_, err := ls.KnownReifiers["unixfs-preload"](ipld.LinkContext{Ctx: bg}, raw, ls)
@@ -112,11 +114,16 @@ func setOf(cs []cid.Cid) map[string]bool {
 // checkEntity is the C06 monitor for one entity and all access forms.
 func checkEntity(c *mon.Case, e *entity, faults bool) {
 	want := setOf(e.Blocks)
-	for _, form := range entityForms {
+	for fi, form := range entityForms {
 		st := e.St.Clone()
 		st.Logging = true
-		ls := st.LinkSystem(true)
-		raw, err := loadRaw(ls, e.Root)
+		// rotate over the link-system configurations a caller may have
+		cfg := (fi + len(e.Blocks) + lsCfgSalt) % 3
+		lsCfgSalt++
+		ls := st.LinkSystemCfg(true, cfg == 1, cfg == 2)
+		c.Count(fmt.Sprintf("linksystem_cfg_%d", cfg), 1)
+		// the root is handed over as the plain dag-pb node (loaded without any node reifier)
+		raw, err := loadRaw(st.LinkSystem(false), e.Root)
 		if err != nil {
 			c.Harness("load root: %v", err)
 			return
